@@ -2,6 +2,7 @@ import Properties.C01
 import Properties.C01Sites
 import Properties.C01Prims
 import Properties.C01Walk
+import Properties.C01Cycle
 #print axioms Hive.C01.eq_of_perm_of_sorted
 #print axioms Hive.C01.sortBy_eq_of_perm
 #print axioms Hive.C01.id_order_invariant
@@ -36,3 +37,8 @@ import Properties.C01Walk
 #print axioms Hive.C01.control_run_order_independent
 #print axioms Hive.C01.observations_agree
 #print axioms Hive.C01.permW_of_perm
+#print axioms Hive.C01.addRequest_permU
+#print axioms Hive.C01.priceUpdate_permU
+#print axioms Hive.C01.driverUpdates_permW
+#print axioms Hive.C01.wphase_perm
+#print axioms Hive.C01.reachable_order_independent
